@@ -132,6 +132,7 @@ type CallPlan struct {
 	Deadline     time.Duration // 0: none
 	CancelTask   bool          // a canceller task cancels at a scheduler-chosen step
 	CancelBefore bool          // the context is cancelled before the first operation
+	CancelLate   bool          // stub world: the canceller becomes eligible only after CancelDelay of fake time
 	CancelDelay  time.Duration // calibration world only: the canceller waits this long (fake time) first
 	YieldOn      [simhttp.NumPoints]bool
 	SlowOn       [simhttp.NumPoints]bool
